@@ -2,7 +2,7 @@
     Depends on Model/ only, so it builds (and the correspondence check runs) even when a
     proof obligation of some property is broken. *)
 From Coq Require Import List ZArith NArith Bool.
-From CqlProxy Require Import Lib.Val Lib.Util Model.Config Model.LB Model.Codec Model.Retry Model.Frame Model.Override Model.Gate Model.Streams Model.Classify Model.Handled Model.SysTables Model.OneReply Model.Sessions Model.Prepared Model.Events Model.Topology.
+From CqlProxy Require Import Lib.Val Lib.Util Model.Config Model.LB Model.Codec Model.Retry Model.Frame Model.Override Model.Gate Model.Streams Model.Classify Model.Handled Model.SysTables Model.OneReply Model.Sessions Model.Prepared Model.Events Model.Topology Model.Hostile.
 Import ListNotations.
 Local Open Scope N_scope.
 
@@ -24,6 +24,7 @@ Definition run_prop (prop : bytes) (input : val) : val :=
   else if bytes_eqb prop (str "C08") then run_c08 input
   else if bytes_eqb prop (str "C14") then run_c14 input
   else if bytes_eqb prop (str "C16") then run_c16 input
+  else if bytes_eqb prop (str "C17") then run_c17 input
   else L [B (str "unknown-property")].
 
 Definition holds_prop (prop : bytes) (input output : val) : val :=
@@ -44,6 +45,7 @@ Definition holds_prop (prop : bytes) (input output : val) : val :=
   else if bytes_eqb prop (str "C08") then holds_c08 input output
   else if bytes_eqb prop (str "C14") then holds_c14 input output
   else if bytes_eqb prop (str "C16") then holds_c16 input output
+  else if bytes_eqb prop (str "C17") then holds_c17 input output
   else B (str "unknown-property").
 
 (** One line of the case file: [input TAB impl_output]  ->  [model_output TAB holds]. *)
